@@ -708,6 +708,8 @@ func (env *ExprEnv) ghostType(gt string) (Val, string) {
 		return Val{K: KBool, T: types.Typ[types.Bool]}, "Bool"
 	case "ref":
 		return Val{K: KRef}, "Int"
+	case "iface":
+		return Val{K: KIface}, "Int"
 	case "map[int]bool":
 		el := Val{K: KBool, T: types.Typ[types.Bool]}
 		return Val{K: KMap, Sort: "(Array Int Bool)", Elem: &el}, "(Array Int Bool)"
